@@ -627,7 +627,7 @@ func poolCount(p *config.Pool) (int64, int64, int64) {
 		}
 		sz := int64(math.Pow(2, float64(b-o)))
 
-		cur := ipaddr.NewCursor([]ipaddr.Prefix{*ipaddr.NewPrefix(cidr)})
+		cur := cursorFor(cidr)
 		firstIP := cur.First().IP
 		lastIP := cur.Last().IP
 
@@ -701,12 +701,21 @@ func ipConfusesBuggyFirmwares(ip net.IP) bool {
 	return ip[3] == 0 || ip[3] == 255
 }
 
+// cursorFor returns a cursor over the addresses of cidr. ipaddr.NewPrefix
+// rewrites the IP of the network it is given to its 16-byte form; the pools'
+// CIDRs belong to the configuration, which the reconcilers keep and compare
+// new configurations against without holding the handlers' lock, so the
+// prefix is built from a copy.
+func cursorFor(cidr *net.IPNet) *ipaddr.Cursor {
+	return ipaddr.NewCursor([]ipaddr.Prefix{*ipaddr.NewPrefix(&net.IPNet{IP: cidr.IP, Mask: cidr.Mask})})
+}
+
 func (a *Allocator) getIPFromCIDR(cidr *net.IPNet, avoidBuggyIPs bool, svc string, ports []Port, sharingKey, backendKey string) net.IP {
 	sk := &key{
 		sharing: sharingKey,
 		backend: backendKey,
 	}
-	c := ipaddr.NewCursor([]ipaddr.Prefix{*ipaddr.NewPrefix(cidr)})
+	c := cursorFor(cidr)
 	for pos := c.First(); pos != nil; pos = c.Next() {
 		if avoidBuggyIPs && ipConfusesBuggyFirmwares(pos.IP) {
 			continue
